@@ -18,6 +18,7 @@ from lib import gz, gtext, glist, gbool, gopt, gpair
 THEOREMS = ['C15_invariants_hold', 'C15_invariants_decidable', 'C15_derivation_returns_new_class',
             'C15_frame_derivation', 'C15_frame_step', 'C15_frame_history', 'C15_frame_derivations',
             'C15_evolution_records', 'C15_propagates', 'C15_fresh_simple', 'C15_fresh_complex',
+            'C15_mandatory_is_mandatory', 'C15_array_shape',
             'C15_customize_keeps_fields', 'C15_customize_keeps_order', 'C15_fresh_decimal_keywords',
             'C15_order_append', 'C15_order_insert', 'C15_order_declared', 'C15_order_flat',
             'C15_order_parents_first', 'C15_order_flat_distinct', 'C15_odict_keys']
@@ -857,12 +858,40 @@ def run_history(ns, ops_or_gen, check=None, n_ops=None, rng=None):
         delta = [(h, s) for h, s in enumerate(cur) if h >= len(table) or table[h] != s]
         table = cur
         rec.append(('ok', delta))
+    xml_modifier_frame(ns, w, list(ops))
     verd = [(h, verdicts_of(ns, c)) for h, c in enumerate(w.pool)
             if h >= 3 and kind_of(ns, c) in ('(KSimple FDecimal)', '(KSimple FUnicode)')
             and (c.__orig__ or c) in (ns.Integer, ns.Unicode, ns.Decimal)]
     flats = [(h, list(c.get_flat_type_info(c).keys())) for h, c in enumerate(w.pool)
              if h >= NBASE and issubclass(c, ns.ComplexModelBase)]
     return ops, rec, verd, flats, w
+
+def xml_modifier_frame(ns, w, hist):
+    """oracle only (XmlAttribute / XmlData are not in the model): wrapping a pool class in an Xml
+    modifier, and customizing the wrapper, changes no pool class.  XmlModifier.__new__ shares
+    type.Attributes by reference, so a write through the wrapper would show here."""
+    before = w.deeps()
+    cands = [c for c in w.pool[3:] if issubclass(c, ns.SimpleModel)][-3:]
+    for T in cands:
+        try:
+            X = ns.cx.XmlAttribute(T)
+            D = ns.cx.XmlData(T)
+            X2 = X.customize(sub_name='q', min_occurs=1)
+            D2 = D.customize(nillable=False)
+        except Exception as e:
+            w.fail('C15|frame|XmlModifier|raised', 'XmlAttribute/XmlData of a pool class, or customizing it, raised %s' % type(e).__name__, hist)
+            return
+        if X2.Attributes is T.Attributes or D2.Attributes is T.Attributes:
+            w.fail('C15|fresh|XmlModifier|customize-shares-attributes',
+                   'customizing an Xml modifier returned a class that shares the Attributes of the wrapped type', hist)
+    after = w.deeps()
+    for h, (b, a) in enumerate(zip(before, after)):
+        if a != b:
+            what = diff_text(b, a)
+            w.fail('C15|frame|XmlModifier|pool-changed|%s' % what[0],
+                   'wrapping pool classes in XmlAttribute/XmlData and customizing the wrappers changed pool class #%d: %s' % (h, what[1]), hist)
+            break
+
 
 def g_case(ops, rec, verd, flats):
     steps = []
@@ -1015,6 +1044,21 @@ def output_orders(ns, pool):
         if h < NBASE or not issubclass(C, ns.ComplexModelBase) or issubclass(C, ns.Array) or C.__orig__ is not None:
             continue
         res = {}
+        # a subclass that redeclares a field name of an ancestor is outside what the XML protocol (and
+        # xs:extension) can express: XmlDocument writes the ancestor's part with the ancestor's type
+        # (TypeError, or the element twice).  Not an order question: skipped here, reported in the notes.
+        seen_names, c2, override = set(), C, False
+        chain = []
+        while c2 is not None:
+            chain.append(c2)
+            c2 = c2.__extends__
+        for c2 in reversed(chain):
+            if seen_names & set(c2._type_info.keys()):
+                override = True
+            seen_names |= set(c2._type_info.keys())
+        if override:
+            out[h] = {'err': 'redeclared-field'}
+            continue
         try:
             inst = value(C, 2)
             fti = C.get_flat_type_info(C)
